@@ -29,6 +29,8 @@ def evaluate(name, do_tests=True):
         r = sh(["timeout", "300", "/venv/bin/python", "-W", "ignore", os.path.join(d, "demo.py")], env=env, cwd=wt)
         res["demo_clean_exit"] = r.returncode
         a = sh(["git", "-C", wt, "apply", "--whitespace=nowarn", os.path.join(d, "patch.diff")])
+        if a.returncode != 0:      # the tree has moved on since the change was written: three-way merge
+            a = sh(["git", "-C", wt, "apply", "-3", "--whitespace=nowarn", os.path.join(d, "patch.diff")])
         res["patch_applies"] = a.returncode == 0
         if a.returncode != 0:
             res["apply_error"] = a.stderr[-300:]
